@@ -113,6 +113,21 @@ Theorem C02_prune_rule_is_the_sources : forall again b, gen_prune again b = negb
 Proof. exact prune_tie. Qed.
 Print Assumptions C02_prune_rule_is_the_sources.
 
+(* ... used by the model where the source uses it: on the first visit of a task the planner step
+   records it as cached and pops it without pushing its dependencies exactly when the translated
+   condition holds of (--again, should_run t) *)
+Theorem C02_prune_rule_drives_the_planner : forall info sr again s i stk,
+  stack s = i :: stk ->
+  let t := lt_task (nth i (store s) dummy_lt) in
+  lt_second (nth i (store s) dummy_lt) = false -> Planner.lookup t (visited s) = None ->
+  match pstep info sr again s with
+  | Some s' => if gen_prune again (sr t) then cached s' = cached s ++ [t] /\ stack s' = stk
+               else cached s' = cached s
+  | None => False
+  end.
+Proof. exact prune_tie_pstep. Qed.
+Print Assumptions C02_prune_rule_drives_the_planner.
+
 Example C02_nonvacuous :
   match plan_for ex_info (fun _ => true) false 50 0 with
   | Some ps => map op_task (ops ps) = [2; 1; 0] /\ map op_exe_deps (ops ps) = [[]; [0]; [0; 1]] /\ cached ps = []
